@@ -68,8 +68,8 @@ Step(e) ==
             LET o == e.fd[f]
                 hd0 == M.hs[a.h]
                 wantN == IF f \in recv THEN 1
-                         ELSE IF a.kind = "StartFeed" /\ a.f = f /\ a.fk = "dump" /\ hd0.st = "open"
-                         THEN Cardinality(M.store[hd0.n][hd0.u].docs[a.c])    \* a dump delivers the existing documents
+                         ELSE IF a.kind = "StartFeed" /\ a.f = f /\ a.fk \in {"dump", "ckpt"} /\ hd0.st = "open"
+                         THEN Cardinality(M.store[hd0.n][hd0.u].docs[a.c])    \* a dump / a resuming feed delivers the existing documents
                          ELSE 0 IN
             IF N.fd[f].loose \/ M.fd[f].loose THEN 0 ELSE
             F(o.n = wantN, {"C16", "C08"}, e,
